@@ -218,8 +218,45 @@ def check(ctx):
         run.check(not bad, 'R22', where(repo, loops[0]), ident, 'storage key = ' + shape,
                   'the variable-width sort key is directly followed by the row number without a separator: with keys "a" and "a0" '
                   'the row "a0" can sort before "a" (e.g. "a0"+"00000000" < "a"+"00000001")', detail=u(keyexpr))
-    # the key calculator: the function built inside class KeyCalc that maps a row to the key string
     kcls = repo.cls(SR + ':KeyCalc')
+    # KEY-WHOLE: the sort key reaches the store whole.  Between the calculator and the stored key the string is only passed on and
+    # extended by the row number: a slice, a case fold or a strip anywhere on the way makes rows that differ in the removed part
+    # ties, which the row number then orders by input position instead of by key.
+    run.rule('KEYW', 'KEY-WHOLE: the key the calculator renders for a row reaches the store whole: the stored key is <calculator(row)> + row '
+                     'number, and KeyCalc.__call__ returns what the calculator selected at construction returns for the row')
+    if keyexpr is not None:
+        def _add_parts(e_):
+            if isinstance(e_, ast.BinOp) and isinstance(e_.op, ast.Add):
+                return _add_parts(e_.left) + _add_parts(e_.right)
+            if isinstance(e_, ast.JoinedStr):
+                return [v_.value if isinstance(v_, ast.FormattedValue) and v_.format_spec is None and v_.conversion == -1 else v_
+                        for v_ in e_.values]
+            return [e_]
+        kparts = [p_ for p_ in _add_parts(keyexpr) if row in names_in(p_)]
+        okw = len(kparts) == 1 and isinstance(kparts[0], ast.Call) and not kparts[0].keywords and \
+            [pseudo(a_) for a_ in kparts[0].args] == [row] and pseudo(kparts[0].func) is not None
+        run.check(okw, 'KEYW', where(repo, loops[0]), ident, 'stored key = <key calculator>(row) + row number',
+                  'the computed sort key is cut or transformed before it is stored: rows whose keys differ only in the removed part '
+                  'come out in input order instead of key order', detail=u(keyexpr))
+    kcall = kcls.methods.get('__call__')
+    if kcall is None:
+        raise AnalysisError('sort_rows: KeyCalc.__call__ not found')
+    from sa.pathvals import PathValues as _PV
+    from sa.paths import Enumerator
+    kcn = ctx.N(kcall)
+    rowp = kcn.params[-1]
+    nret = 0
+    for p_ in Enumerator(where=kcall.qualname).paths(kcn.node.body):
+        for rv in _PV(p_).returns:
+            nret += 1
+            e_ = rv
+            okr = isinstance(e_, ast.Call) and not e_.keywords and [pseudo(a_) for a_ in e_.args] == [rowp] and \
+                (pseudo(e_.func) or '').startswith('self.')
+            run.check(okr, 'KEYW', where(repo, kcall.node), kcall.qualname, 'return self.<calculator>(row)',
+                      'KeyCalc.__call__ does not return the calculator\'s key as it is: a key that is cut or transformed makes rows that '
+                      'differ only in the removed part ties (ordered by input position, not by key)', detail=u(rv))
+    run.floor('KEYW', nret, 1, 'returns of KeyCalc.__call__')
+    # the key calculator: the function built inside class KeyCalc that maps a row to the key string
     cands = [f for f in repo.functions.values() if not isinstance(f.node, ast.Lambda) and f.parent is not None
              and getattr(f.parent, 'cls', None) is kcls and len(f.all_params) == 1]
     cands = [f for f in cands if any(isinstance(n, ast.For) for n in ast.walk(f.node))]
